@@ -4,7 +4,7 @@
 use bytes::{Bytes, BytesMut, BufMut};
 use qrecovery::recv::RecvBuf;
 
-use crate::common::{hex, Opts, Rng, Sink};
+use crate::common::{catch, hex, Opts, Rng, Sink};
 
 fn segs_of(buf: &RecvBuf) -> String {
     let d = format!("{:?}", buf);
@@ -48,72 +48,115 @@ unsafe impl BufMut for Limited {
     }
 }
 
-pub fn one_case(rng: &mut Rng, sink: &mut Sink, exhaustive: Option<&[(u8, u64, u64)]>) {
-    const AL: &[u8] = b"abcdefghijklmnopqrstuvwxyz0123456789";
-    let len = match rng.below(10) { 0 => rng.range(1, 4), 1..=6 => rng.range(5, 48), 7 | 8 => rng.range(49, 300), _ => rng.range(301, 3000) } as usize;
-    let src: Vec<u8> = (0..len).map(|_| *rng.pick(AL)).collect();
-    let src = Bytes::from(src);
+/// Drive a fresh real `RecvBuf` with `ops` over `src`; op = (kind, a, b): 0 = recv(off=a, len=b), 1 = read(cap=a), 2 = next.
+/// Writes the transcript lines and evaluates the independent monitors (they never consult the model):
+///  read_prefix            bytes handed out so far == src[..nread]
+///  fresh_sums_to_largest  sum of recv returns == largest_offset
+///  largest_is_max_end     largest_offset == max off+len over non-empty fragments
+///  available_prefix       nread + available == length of the contiguous arrived prefix (per-byte bitmap oracle)
+///  read_is_maximal        try_read returns min(cap, available before)
+///  next_iff_available     try_next is Some iff available before > 0
+/// Returns (number of fully-overlapping fragments, bytes read).
+pub fn drive(src: &Bytes, ops: &[(u8, u64, u64)], sink: &mut Sink) -> (u64, usize) {
     let mut buf = RecvBuf::default();
     let mut out: Vec<u8> = vec![];
     let mut charged = 0u64;
     let mut overlaps = 0;
-    let nops = rng.range(3, 40);
-    let mut ops: Vec<(u8, u64, u64)> = vec![];
-    if let Some(e) = exhaustive { ops.extend_from_slice(e); } else {
-        // fragment boundaries biased to a small set of cut points so that exact-adjacency,
-        // same-offset and containment cases are common
-        let ncuts = rng.range(2, 8);
-        let mut cuts: Vec<u64> = (0..ncuts).map(|_| rng.below(len as u64 + 1)).collect();
-        cuts.push(0); cuts.push(len as u64);
-        for _ in 0..nops {
-            match rng.below(10) {
-                0..=5 => {
-                    let (a, b) = if rng.chance(3, 4) { (*rng.pick(&cuts), *rng.pick(&cuts)) } else { (rng.below(len as u64 + 1), rng.below(len as u64 + 1)) };
-                    let (a, b) = if a <= b { (a, b) } else { (b, a) };
-                    ops.push((0, a, b - a));
-                }
-                6..=8 => { let cap = if rng.chance(1, 5) { 0 } else { rng.below(len as u64 + 2) }; ops.push((1, cap, 0)); }
-                _ => ops.push((2, 0, 0)),
-            }
-        }
-        // cooperative suffix in half the cases: deliver everything, read everything
-        if rng.chance(1, 2) { ops.push((0, 0, len as u64)); ops.push((1, len as u64 + 1, 0)); }
-    }
-    for (k, a, b) in ops {
+    let mut arrived = vec![false; src.len()];
+    let mut max_end = 0u64;
+    for &(k, a, b) in ops {
+        let avail_before = buf.available();
         match k {
             0 => {
                 let data = src.slice(a as usize..(a + b) as usize);
                 let before_lg = buf.largest_offset();
-                sink.pending(&format!("recv {} {}", a, hex(&data)));
-                let ret = buf.recv(a, data.clone());
+                let op = format!("recv {} {}", a, hex(&data));
+                sink.pending(&op);
+                let d2 = data.clone();
+                let ret = match catch(|| buf.recv(a, d2)) {
+                    Ok(r) => r,
+                    Err(msg) => {
+                        sink.line(&op, "PANIC");
+                        sink.monitor_fail("panic:recv", &format!("RecvBuf::recv panicked: {}", msg));
+                        return (overlaps, out.len());
+                    }
+                };
                 charged += ret;
+                for x in a..a + b { arrived[x as usize] = true; }
+                if b > 0 { max_end = max_end.max(a + b); }
                 if ret == 0 && b > 0 && a < before_lg { overlaps += 1; }
-                sink.line(&format!("recv {} {}", a, hex(&data)), &format!("ret={} {}", ret, tail(&buf)));
+                sink.line(&op, &format!("ret={} {}", ret, tail(&buf)));
             }
             1 => {
                 let mut dst = Limited(BytesMut::new(), a as usize);
                 let n = buf.try_read(&mut dst);
                 let got = dst.0.to_vec();
                 if n != got.len() { sink.monitor_fail("try_read_len", &format!("returned {} wrote {}", n, got.len())); }
+                if got.len() as u64 != a.min(avail_before) {
+                    sink.monitor_fail("read_is_maximal", &format!("try_read(cap {}) gave {} bytes with {} available", a, got.len(), avail_before));
+                }
                 out.extend_from_slice(&got);
                 sink.line(&format!("read {}", a), &format!("out={} {}", hex(&got), tail(&buf)));
             }
             _ => {
                 match buf.try_next() {
-                    Some(d) => { out.extend_from_slice(&d); sink.line("next", &format!("out={} {}", hex(&d), tail(&buf))); }
-                    None => sink.line("next", &format!("out=none {}", tail(&buf))),
+                    Some(d) => {
+                        if avail_before == 0 || d.is_empty() { sink.monitor_fail("next_iff_available", "try_next returned a chunk with nothing available / an empty chunk"); }
+                        out.extend_from_slice(&d);
+                        sink.line("next", &format!("out={} {}", hex(&d), tail(&buf)));
+                    }
+                    None => {
+                        if avail_before != 0 { sink.monitor_fail("next_iff_available", &format!("try_next returned None with {} available", avail_before)); }
+                        sink.line("next", &format!("out=none {}", tail(&buf)));
+                    }
                 }
             }
         }
         // independent monitors (never consult the model)
-        if out.len() as u64 != buf.nread() || out[..] != src[..out.len()] {
+        if out.len() as u64 != buf.nread() || out.len() > src.len() || out[..] != src[..out.len()] {
             sink.monitor_fail("read_prefix", "bytes read are not the prefix of the source");
         }
         if charged != buf.largest_offset() {
             sink.monitor_fail("fresh_sums_to_largest", &format!("sum of returns {} != largest {}", charged, buf.largest_offset()));
         }
+        if max_end != buf.largest_offset() {
+            sink.monitor_fail("largest_is_max_end", &format!("largest {} != max fragment end {}", buf.largest_offset(), max_end));
+        }
+        let prefix = arrived.iter().take_while(|x| **x).count() as u64;
+        if buf.nread() + buf.available() != prefix {
+            sink.monitor_fail("available_prefix", &format!("nread {} + available {} != contiguous arrived prefix {}", buf.nread(), buf.available(), prefix));
+        }
     }
-    if overlaps > 0 && !out.is_empty() { sink.nontrivial(); }
+    (overlaps, out.len())
+}
+
+pub fn one_case(rng: &mut Rng, sink: &mut Sink) {
+    const AL: &[u8] = b"abcdefghijklmnopqrstuvwxyz0123456789";
+    let len = match rng.below(10) { 0 => rng.range(1, 4), 1..=6 => rng.range(5, 48), 7 | 8 => rng.range(49, 300), _ => rng.range(301, 3000) } as usize;
+    let src: Vec<u8> = (0..len).map(|_| *rng.pick(AL)).collect();
+    let src = Bytes::from(src);
+    let nops = rng.range(3, 40);
+    let mut ops: Vec<(u8, u64, u64)> = vec![];
+    // fragment boundaries biased to a small set of cut points so that exact-adjacency,
+    // same-offset and containment cases are common
+    let ncuts = rng.range(2, 8);
+    let mut cuts: Vec<u64> = (0..ncuts).map(|_| rng.below(len as u64 + 1)).collect();
+    cuts.push(0); cuts.push(len as u64);
+    for _ in 0..nops {
+        match rng.below(10) {
+            0..=5 => {
+                let (a, b) = if rng.chance(3, 4) { (*rng.pick(&cuts), *rng.pick(&cuts)) } else { (rng.below(len as u64 + 1), rng.below(len as u64 + 1)) };
+                let (a, b) = if a <= b { (a, b) } else { (b, a) };
+                ops.push((0, a, b - a));
+            }
+            6..=8 => { let cap = if rng.chance(1, 5) { 0 } else { rng.below(len as u64 + 2) }; ops.push((1, cap, 0)); }
+            _ => ops.push((2, 0, 0)),
+        }
+    }
+    // cooperative suffix in half the cases: deliver everything, read everything
+    if rng.chance(1, 2) { ops.push((0, 0, len as u64)); ops.push((1, len as u64 + 1, 0)); }
+    let (overlaps, nout) = drive(&src, &ops, sink);
+    if overlaps > 0 && nout > 0 { sink.nontrivial(); }
 }
 
 pub fn run(o: &Opts) {
@@ -122,9 +165,56 @@ pub fn run(o: &Opts) {
         if let Some(k) = o.only_case { if k != i { continue; } }
         let mut rng = Rng::new(o.seed, i);
         sink.case(&format!("{}", i));
-        one_case(&mut rng, &mut sink, None);
+        one_case(&mut rng, &mut sink);
     }
     sink.finish(&o.stats, "random histories of recv(slice of src)/read(cap)/next on a real RecvBuf; non-trivial = at least one fully-overlapping fragment arrived and at least one byte was read; distinct by hash of the full transcript of the case");
 }
 
-pub const RUNS: &[(&str, fn(&Opts))] = &[("C08", run)];
+/// Exhaustive small scope: every source length n ≤ N, every sequence of ≤ 3 fragments (off, len) with
+/// off + len ≤ n (empty fragments included), after each fragment but the last one of
+/// {nothing, try_next, try_read(cap) for every cap in 1..=n}, and a final draining try_read(n + 1).
+/// N = 3 in the quick tier, 5 in the thorough tier; `--cases` is only an upper bound (a safety valve):
+/// if it is hit, the note `exhaustive` is false.
+pub fn run_x(o: &Opts) {
+    let mut sink = Sink::new_with_stats(&o.out, &o.stats);
+    let nmax: u64 = if o.thorough() { 5 } else { 3 };
+    let mut id = 0u64;
+    let mut complete = true;
+    'outer: for n in 0..=nmax {
+        let src = Bytes::from((0..n).map(|i| b'a' + i as u8).collect::<Vec<u8>>());
+        let mut frags: Vec<(u64, u64)> = vec![];
+        for off in 0..=n { for len in 0..=(n - off) { frags.push((off, len)); } }
+        // gap choices: 0 = nothing, 1 = next, 2.. = read(cap = c - 1)
+        let ngap = n + 2;
+        for k in 0..=3usize {
+            let nseq = (frags.len() as u64).pow(k as u32);
+            let ngaps = ngap.pow(k.saturating_sub(1) as u32);
+            for si in 0..nseq {
+                for gi in 0..ngaps {
+                    if id >= o.cases { complete = false; break 'outer; }
+                    let this = id; id += 1;
+                    if let Some(want) = o.only_case { if want != this { continue; } }
+                    let mut ops: Vec<(u8, u64, u64)> = vec![];
+                    let (mut s, mut g) = (si, gi);
+                    for j in 0..k {
+                        let f = frags[(s % frags.len() as u64) as usize]; s /= frags.len() as u64;
+                        ops.push((0, f.0, f.1));
+                        if j + 1 < k {
+                            let c = g % ngap; g /= ngap;
+                            match c { 0 => {}, 1 => ops.push((2, 0, 0)), c => ops.push((1, c - 1, 0)) }
+                        }
+                    }
+                    ops.push((1, n + 1, 0));
+                    sink.case(&format!("{}", this));
+                    let (overlaps, nout) = drive(&src, &ops, &mut sink);
+                    if overlaps > 0 && nout > 0 { sink.nontrivial(); }
+                }
+            }
+        }
+    }
+    sink.note("exhaustive", serde_json::json!(complete));
+    sink.note("scope", serde_json::json!(format!("|src| <= {}, <= 3 fragments (all off,len incl. empty), all gap choices (nothing / next / read 1..=|src|), final drain", nmax)));
+    sink.finish(&o.stats, "exhaustive small-scope enumeration of fragment sequences and reads on a real RecvBuf; non-trivial = at least one fully-overlapping fragment and at least one byte read; distinct by hash of the transcript");
+}
+
+pub const RUNS: &[(&str, fn(&Opts))] = &[("C08", run), ("C08loop", run), ("C08x", run_x)];
